@@ -42,6 +42,7 @@ type invokeState struct {
 	panicked    []*ExecRec
 	ranSelf     int
 	onCycle     map[*Reg]bool
+	cbPanicked  bool
 }
 
 // Monitor is the online trace checker.
@@ -501,6 +502,16 @@ func (m *Monitor) onExit(rec *ExecRec) {
 	}
 }
 
+// onCallbackPanic: a callback is about to panic. What Invoke then returns is outside every claim
+// (callbacks are not among the failure sources of C13, DESIGN 10.9); the wiring, singleton and
+// callback rules keep judging this and all later operations.
+func (m *Monitor) onCallbackPanic(f *Fn) {
+	m.stats["callback.panicked"]++
+	if m.inv != nil {
+		m.inv.cbPanicked = true
+	}
+}
+
 func (m *Monitor) onCallback(f *Fn, ci dig.CallbackInfo) {
 	m.stats["callback"]++
 	if m.w.h.Opts.Dry {
@@ -622,7 +633,7 @@ func (m *Monitor) beforeCall(i int, op *Op, f *Fn) {
 		st := &invokeState{f: f, s: op.Scope, doneAtStart: map[int]bool{}}
 		start := node{f: f, s: op.Scope}
 		m.resetMemo()
-		st.may = m.may(start)
+		st.may = m.mayInvoke(start)
 		st.av = m.availParams(start)
 		st.mustR, st.mustD = m.must(start)
 		st.cycReq = m.mustCycleFrom(start)
@@ -879,6 +890,10 @@ func (m *Monitor) afterInvoke(i int, op *Op, f *Fn, rec *OpRec) {
 		}
 		m.invInfos[i] = ii
 	}
+	if st.cbPanicked {
+		m.stats["invoke.callback-panicked"]++
+		return
+	}
 	rcv := m.w.h.Opts.Recover
 	// panics
 	if rec.Panic != nil {
@@ -893,9 +908,9 @@ func (m *Monitor) afterInvoke(i int, op *Op, f *Fn, rec *OpRec) {
 		if rcv {
 			var pe dig.PanicError
 			if !errors.As(rec.Err, &pe) || pe.Panic != interface{}(st.panicked[0].Pan) {
-				m.violate("C13", "C13.panicerror", "recovered panic not reported as a PanicError carrying the value: %v", rec.Err)
+				m.violate("C13,C07", "C13.panicerror", "recovered panic not reported as a PanicError carrying the value: %v", rec.Err)
 			} else if _, ok := dig.RootCause(rec.Err).(dig.PanicError); !ok {
-				m.violate("C13", "C13.panic-rootcause", "root cause of a recovered panic is %T", dig.RootCause(rec.Err))
+				m.violate("C13,C07", "C13.panic-rootcause", "root cause of a recovered panic is %T", dig.RootCause(rec.Err))
 			} else {
 				var de dig.Error
 				if errors.As(dig.RootCause(rec.Err), &de) {
